@@ -90,12 +90,19 @@ class HTAIL(Harness):
         def target_fun(x):
             return 0.0
 
+        level0 = p.get("level0", level)   # level configured at construction (0 = noise auto-detected later)
+
         class FL:
             func_count = 40
             total_fun_eval_time = 1.0
             fun = staticmethod(target_fun)
             Xn = n - 1
             X = None
+            D_ = D
+            noise_flag = level0 > 0
+            uncertainty_handling_level = level0
+            he_noise_flag = level0 == 2
+            X_max_idx = n - 1
 
             def __call__(s, u, record_duplicate_data=True):
                 if fault and eng.choose("fault"):
